@@ -89,5 +89,5 @@ def streams(tier, avoid):
     _init, seqs = _small_scope_cases(4 if tier == "quick" else 5)
     return [Stream("small_scope", body_small, cases=seqs),
             Stream("histories", body, machine=M.make_machine({"C14"}, tier),
-                   n={"quick": 250, "thorough": 2000}, steps={"quick": 25, "thorough": 40},
+                   n={"quick": 250, "thorough": 1200}, steps={"quick": 25, "thorough": 40},
                    reduce=M.reduce_ops, shrink=(tier == "thorough"))]
